@@ -82,7 +82,7 @@ class Ctx(object):
 
     def describe(self, desc):
         if self.cur is not None:
-            self.cur['desc'] = desc
+            self.cur['desc'] = jsonable(desc)
 
     def sig(self, *parts):
         self.sigs.add(json.dumps(jsonable(parts), sort_keys=True))
